@@ -172,7 +172,8 @@ def run(prog, rep, tier='quick'):
             ctx = 'complex' if cplx else 'real'
             if blocked(rep, 'error-sign', f.qname, ctx, itp):
                 continue
-            sums = [e for e in itp.events if e[0] == 'sum-signs' and e[6] == f.qname and e[5] == () and e[4] is not TOP and deq(e[4], 2)]
+            here = {f.qname} | {q_ for q_ in itp.trace if q_.startswith(mod + '.')}       # the estimator and its private helpers
+            sums = [e for e in itp.events if e[0] == 'sum-signs' and e[6] in here and e[5] == () and e[4] is not TOP and deq(e[4], 2)]
             n_sg += 1
             good = [e for e in sums if e[2] != e[3]]
             if good:
